@@ -658,6 +658,57 @@ func c20MutantCodes(legacy bool, res *WRes) {
 	}
 }
 
+// c20KeyFault: the provider of the ID-token signing key fails. Whatever endpoint was about to mint an ID token answers
+// with an OAuth 2.0 error (server_error), not with the fallback code "error".
+func c20KeyFault(legacy bool, res *WRes) {
+	for _, flow := range []string{"implicit-id_token", "hybrid", "code-redeem", "refresh"} {
+		w := NewWorld(Profile{LegacyErrors: legacy})
+		auth := w.AuthFor("A")
+		fault := errors.New("kms: key provider unavailable STORAGEMARKER")
+		var o *Obs
+		switch flow {
+		case "implicit-id_token":
+			w.KeyFault = fault
+			o = c19Authz(w, "A", "id_token", "openid a")
+		case "hybrid":
+			w.KeyFault = fault
+			o = c19Authz(w, "A", "code id_token", "openid a")
+		case "code-redeem", "refresh":
+			code := c19Authz(w, "A", "code", "openid offline a").Param("code")
+			f := url.Values{"grant_type": {"authorization_code"}, "code": {code}, "redirect_uri": {"https://A.example/cb"}}
+			if flow == "code-redeem" {
+				w.KeyFault = fault
+				o = w.Token(f, auth)
+			} else {
+				t := w.Token(f, auth)
+				w.KeyFault = fault
+				o = w.Token(url.Values{"grant_type": {"refresh_token"}, "refresh_token": {t.Str("refresh_token")}}, auth)
+			}
+		}
+		res.Trans++
+		res.Evals++
+		res.distinct(fmt.Sprintf("key-fault|%s|%v", flow, legacy))
+		if o.Param("id_token") != "" || o.Str("id_token") != "" {
+			res.note("sanity:id-token-minted-despite-key-fault")
+			continue
+		}
+		code := o.Err
+		if code == "" {
+			code = o.Param("error")
+		}
+		text := o.Body + " " + o.Location
+		if dec, err := url.QueryUnescape(o.Location); err == nil {
+			text += " " + dec
+		}
+		if code == "error" {
+			res.violate(Violation{Property: "C20", Fingerprint: "C20/signing-key-failure-answered-with-non-rfc-error-code/" + flow, What: fmt.Sprintf("flow %s: a failure of the ID-token signing key provider is answered with the error code \"error\", which is not an OAuth 2.0 error code", flow), Engine: "c20keyfault", Case: map[string]bool{"legacy_format": legacy}, Expected: "server_error", Observed: strings.TrimSpace(text)})
+		}
+		if strings.Contains(text, "STORAGEMARKER") {
+			res.violate(Violation{Property: "C20", Fingerprint: "C20/signing-key-failure-text-exposed/" + flow, What: fmt.Sprintf("flow %s: the text of the key provider's error appears in the response although debug exposure is disabled", flow), Engine: "c20keyfault", Case: map[string]bool{"legacy_format": legacy}, Expected: "no internal detail", Observed: strings.TrimSpace(text)})
+		}
+	}
+}
+
 type c20Job struct {
 	Fault  bool
 	Writer string
@@ -687,6 +738,7 @@ func init() {
 			for _, leg := range []bool{false, true} {
 				c20FetchLeak(leg, res)
 				c20MutantCodes(leg, res)
+				c20KeyFault(leg, res)
 			}
 			res.sample(map[string]any{"part": "storage error text", "flows": c18Flows})
 			return res, nil
@@ -737,6 +789,17 @@ func init() {
 		}
 		res := &WRes{}
 		c20RunErr(c, res)
+		return res.Viol, nil
+	}
+	replayFns["c20keyfault"] = func(raw json.RawMessage) ([]Violation, error) {
+		var c struct {
+			Legacy bool `json:"legacy_format"`
+		}
+		if err := json.Unmarshal(raw, &c); err != nil {
+			return nil, err
+		}
+		res := &WRes{}
+		c20KeyFault(c.Legacy, res)
 		return res.Viol, nil
 	}
 	replayFns["c20mutant"] = func(raw json.RawMessage) ([]Violation, error) {
